@@ -24,10 +24,10 @@ PROPERTIES["C05"] = {
     "level_text": "bounded symbolic verification: for every value of the symbolic objective/constraint coefficients, point, penalty and multipliers (sizes fixed) the real penalty functions equal their defining formulas; solver verdict per obligation, counter-examples replayed on the IEEE build",
     "level_note": SRE_NOTE,
     "technique": SRE_TECH,
-    "explanation": "C05: penalty/augmented-Lagrangian functions vs. independently written defining formulas for symbolic objective, constraints, point, penalty and multipliers.",
+    "explanation": "C05: penalty/augmented-Lagrangian functions vs. independently written defining formulas for symbolic objective, constraints, point, penalty and multipliers; augmented-Lagrangian outer loop with a scripted (arbitrary-point) inner solver: converged => recomputed feasibility <= epsilon, stored constraint values = recomputed.",
     "assumptions": SRE_ASSUME,
-    "bounds": {"dims": 2, "constraints_per_function": "<= 3"},
-    "outside": ["quality of the inner minimisation of the penalty / augmented-Lagrangian solvers"],
+    "bounds": {"dims": "2 (functions), 1..2 (solver)", "constraints_per_function": "<= 4", "AL outer iterations explored": "2..3"},
+    "outside": ["quality of the inner minimisation (the inner solver is an arbitrary-point oracle; outer iterations explored up to the `outers` bound)", "linear/quadratic penalty solvers' outer loops"],
     "units": [
         {"engine": "sre", "harness": "C05_penalty", "sources": ["C05_penalty.cpp"],
          "quick": ["k=0,1,2;d=2", "k=3,4;d=2", "k=5,6;d=2", "k=7,8;d=2", "k=9,10;d=2", "k=6,3,2;d=2"],
@@ -35,6 +35,12 @@ PROPERTIES["C05"] = {
                       "k=0,1,2;d=3;dim=1", "k=3,6;d=3", "k=7,4;d=3", "k=9,2;d=3", "k=1,2,5,6;d=2"],
          "encoded": ["nano::linear_penalty_function_t::do_vgrad", "nano::quadratic_penalty_function_t::do_vgrad",
                      "nano::augmented_lagrangian_function_t::do_vgrad", "nano::vgrad(constraint_t)", "nano::function_t::constrain"]},
+        {"engine": "sre", "harness": "C05_alsolver", "sources": ["C05_alsolver.cpp"],
+         "quick": ["d=1;cons=b;outers=2", "d=1;cons=l;outers=2", "d=1;cons=e;outers=2", "d=1;cons=q;outers=2"],
+         "thorough": ["d=1;cons=%s;outers=%d" % (c, o) for c in ("b", "l", "e", "q", "lb", "eb") for o in (2, 3)] + ["d=2;cons=l;outers=2", "d=2;cons=e;outers=2"],
+         "budget": {"quick": {"deadline_s": 60, "max_paths": 20000, "query_s": 8}, "thorough": {"deadline_s": 900, "max_paths": 300000, "query_s": 30}},
+         "encoded": ["nano::solver_augmented_lagrangian_t::do_minimize", "(anonymous)::make_ro1", "(anonymous)::make_criterion", "nano::converged(bstate, cstate, eps)", "nano::solver_t::done",
+                     "nano::solver_state_t::{update, update_constraints, kkt_optimality_test1/2}", "nano::augmented_lagrangian_function_t::do_vgrad (through the scripted inner solver)"]},
     ],
 }
 
